@@ -483,7 +483,22 @@ def replay(w):
     rng = np.random.RandomState(6)
     if w['kind'] == 'misc':
         if 'bad_shape' not in w:
-            return {'reproduced': True, 'detail': w['what']}
+            st = Standardize()
+            if st.have_stats:
+                return {'reproduced': True, 'detail': 'have_stats true before any accumulate'}
+            st.accumulate(rng.randn(3))
+            if not st.have_stats:
+                return {'reproduced': True, 'detail': 'have_stats false after accumulate'}
+            for bad in (rng.randn(4), rng.randn(2, 2)):
+                for meth in (st.apply, st.accumulate):
+                    try:
+                        meth(bad)
+                        return {'reproduced': True, 'detail': 'wrong feature dimension %s accepted by %s' % (bad.shape, meth.__name__)}
+                    except ValueError:
+                        pass
+                    except Exception as e:
+                        return {'reproduced': True, 'detail': '%s of a wrong feature dimension raised %s, not ValueError' % (meth.__name__, type(e).__name__)}
+            return {'reproduced': False, 'detail': 'have_stats / dimension checks as documented'}
         st = Standardize()
         st.accumulate(rng.randn(3, w['F']) + 2, axis=-1)
         bad = rng.randn(*w['bad_shape'])
